@@ -6,7 +6,7 @@ from .. import common, es, trees
 from . import c07
 
 LEVEL = "proof"
-EXTRA_LEAN_MODULES = ["Luqum.Props.GenRuntime"]   # constants of the E-classes and builder defaults (translated)
+EXTRA_LEAN_MODULES = ["Luqum.Props.GenRuntime", "Luqum.Props.GenEs"]   # constants of the E-classes and builder defaults (translated)
 RULE = ("random schemas / configurations (incl. field_options, match_word_as_phrase, default_field) x named trees of "
         "supported constructs; the leaf clauses of the returned JSON are compared as a multiset with the clauses "
         "expected from the tree (field, text, kind class, zero_terms_query, _name, boost / fuzziness / slop); "
